@@ -340,3 +340,336 @@ theorem grid_bridge (F : FrameSys (matOps R) Φ) (n d : Nat) (st : GridState Φ)
     exact (segs_bridge F st.calls hsh.ws _ (hcol c (List.mem_range.mp hc)) 0).2
 
 end QG.Lemmas.GridBridge
+
+/-! ### how many columns a run fills: `j · n + s` is the total width placed so far -/
+
+namespace QG.Lemmas.GridBridge
+variable {Φ : Type} [AddCommGroup Φ]
+
+/-- rows a build call occupies -/
+def callW : CircCall Φ → Nat
+  | .Rz _ _ => 0
+  | .CNOT _ _ _ => 2
+  | .ECR _ _ _ => 2
+  | _ => 1
+
+def totalW (cs : List (CircCall Φ)) : Nat := (cs.map callW).sum
+
+theorem totalW_append (a b : List (CircCall Φ)) : totalW (a ++ b) = totalW a + totalW b := by
+  simp [totalW]
+
+theorem apply1_width (st st' : GridState Φ) (i : Nat) (e : Entry) (hs : st.s ≤ st.nqubit)
+    (h : st.apply1 i e = .ok st') :
+    st'.j * st.nqubit + st'.s = st.j * st.nqubit + st.s + 1 ∧ st'.nqubit = st.nqubit := by
+  unfold GridState.apply1 at h
+  by_cases h1 : st.s < st.nqubit
+  · rw [if_pos h1] at h
+    cases hg : gridWrite st.grid i st.j e with
+    | error x => simp [hg, bind, Except.bind] at h
+    | ok g =>
+      simp only [hg, bind, Except.bind, pure, Except.pure] at h
+      injection h with h; subst h
+      exact ⟨by simp only; ring, rfl⟩
+  · have h2 : st.s = st.nqubit := by omega
+    rw [if_neg h1, if_pos h2] at h
+    cases hg : gridWrite st.grid i (st.j + 1) e with
+    | error x => simp [hg, bind, Except.bind] at h
+    | ok g =>
+      simp only [hg, bind, Except.bind, pure, Except.pure] at h
+      injection h with h; subst h
+      refine ⟨?_, rfl⟩
+      simp only
+      rw [h2]; ring
+
+theorem apply2_width (st st' : GridState Φ) (i : Nat) (e : Entry) (phi : List Φ) (hs : st.s ≤ st.nqubit)
+    (h : st.apply2 i e phi = .ok st') :
+    st'.j * st.nqubit + st'.s = st.j * st.nqubit + st.s + 2 ∧ st'.nqubit = st.nqubit := by
+  unfold GridState.apply2 at h
+  by_cases h1 : st.s < st.nqubit
+  · rw [if_pos h1] at h
+    cases hg : gridWrite st.grid i st.j e with
+    | error x => simp [hg, bind, Except.bind] at h
+    | ok g =>
+      simp only [hg, bind, Except.bind, pure, Except.pure] at h
+      injection h with h; subst h
+      exact ⟨by simp only; ring, rfl⟩
+  · have h2 : st.s = st.nqubit := by omega
+    rw [if_neg h1, if_pos h2] at h
+    cases hg : gridWrite st.grid i (st.j + 1) e with
+    | error x => simp [hg, bind, Except.bind] at h
+    | ok g =>
+      simp only [hg, bind, Except.bind, pure, Except.pure] at h
+      injection h with h; subst h
+      refine ⟨?_, rfl⟩
+      simp only
+      rw [h2]; ring
+
+/-- one build call adds its width to `j · n + s` -/
+theorem step_width (P : PhaseOps Φ) (st st' : GridState Φ) (c : CircCall Φ) (hs : st.s ≤ st.nqubit)
+    (h : st.step P c = .ok st') :
+    st'.j * st.nqubit + st'.s = st.j * st.nqubit + st.s + callW c ∧ st'.nqubit = st.nqubit := by
+  cases c with
+  | Rz i th =>
+    simp only [GridState.step, bind, Except.bind] at h
+    cases h1 : getAt st.phi i with
+    | error e => simp [h1] at h
+    | ok p =>
+      simp only [h1] at h
+      cases h2 : setAt st.phi i (P.add p th) with
+      | error e => simp [h2] at h
+      | ok phi' =>
+        simp only [h2, pure, Except.pure] at h
+        injection h with h; subst h
+        exact ⟨rfl, rfl⟩
+  | I i =>
+    simp only [GridState.step] at h
+    exact apply1_width st st' i .ident hs h
+  | X i pars =>
+    simp only [GridState.step, bind, Except.bind] at h
+    cases h1 : oneQCall P "X" st.phi i pars true with
+    | error e => simp [h1] at h
+    | ok c0 => simp only [h1] at h; exact apply1_width { st with calls := c0 :: st.calls } st' i _ hs h
+  | SX i pars =>
+    simp only [GridState.step, bind, Except.bind] at h
+    cases h1 : oneQCall P "SX" st.phi i pars true with
+    | error e => simp [h1] at h
+    | ok c0 => simp only [h1] at h; exact apply1_width { st with calls := c0 :: st.calls } st' i _ hs h
+  | relaxation i pars =>
+    simp only [GridState.step, bind, Except.bind] at h
+    cases h1 : oneQCall P "relaxation" st.phi i pars false with
+    | error e => simp [h1] at h
+    | ok c0 => simp only [h1] at h; exact apply1_width { st with calls := c0 :: st.calls } st' i _ hs h
+  | bitflip i pars =>
+    simp only [GridState.step, bind, Except.bind] at h
+    cases h1 : oneQCall P "bitflip" st.phi i pars false with
+    | error e => simp [h1] at h
+    | ok c0 => simp only [h1] at h; exact apply1_width { st with calls := c0 :: st.calls } st' i _ hs h
+  | CNOT i k pars =>
+    simp only [GridState.step] at h
+    by_cases had : absDiff i k ≠ 1
+    · rw [if_pos had] at h; cases h
+    · rw [if_neg had, if_pos (by omega : st.s < st.nqubit ∨ st.s = st.nqubit)] at h
+      simp only [bind, Except.bind] at h
+      cases h1 : twoQCNOT P st.phi i k pars with
+      | error e => simp [h1] at h
+      | ok t => simp only [h1] at h; exact apply2_width { st with calls := t.call :: st.calls } st' i _ t.phi hs h
+  | ECR i k pars =>
+    simp only [GridState.step] at h
+    by_cases had : absDiff i k ≠ 1
+    · rw [if_pos had] at h; cases h
+    · rw [if_neg had, if_pos (by omega : st.s < st.nqubit ∨ st.s = st.nqubit)] at h
+      simp only [bind, Except.bind] at h
+      cases h1 : twoQECR st.phi i k pars with
+      | error e => simp [h1] at h
+      | ok t => simp only [h1] at h; exact apply2_width { st with calls := t.call :: st.calls } st' i _ t.phi hs h
+
+/-- whole call lists (in row order, so that the fill counter stays within the column) -/
+theorem run_width (P : PhaseOps Φ) (n d : Nat) (cs : List (CircCall Φ)) (st st' : GridState Φ) (b : BinState Φ)
+    (h : RelG n d st b) (hrow : RowOrderedG n st.s cs) (hs : foldE (GridState.step P) st cs = .ok st') :
+    st'.j * n + st'.s = st.j * n + st.s + totalW cs := by
+  induction cs generalizing st b with
+  | nil => simp only [foldE] at hs; injection hs with hs; subst hs; simp [totalW]
+  | cons c rest ih =>
+    simp only [foldE, bind, Except.bind] at hs
+    cases h1 : st.step P c with
+    | error e => simp [h1] at hs
+    | ok s1 =>
+      simp only [h1] at hs
+      obtain ⟨b1, _, hr1, hs1⟩ := step_simG P n d st s1 b h c hrow.1 h1
+      have hw := step_width P st s1 c (by rw [h.nq]; exact h.sle) h1
+      rw [h.nq] at hw
+      have := ih s1 b1 hr1 (by rw [hs1]; exact hrow.2) hs
+      rw [this, hw.1]
+      simp only [totalW, List.map_cons, List.sum_cons]
+      ring
+
+end QG.Lemmas.GridBridge
+
+namespace QG.Lemmas.GridBridge
+variable {Φ : Type} [AddCommGroup Φ]
+
+/-- the operations of the preprocessed circuit that take a gate time (a full column / layer) -/
+def isColOp : Op Φ → Bool
+  | .sx _ | .x _ | .cx _ _ | .ecr _ _ | .delay _ _ => true
+  | _ => false
+
+def colCount (data : List (Op Φ)) : Nat := (data.filter isColOp).length
+
+theorem totalW_layerLoop (n : Nat) (hit : Nat → Option (List (CircCall Φ))) :
+    totalW (layerLoop n hit) =
+      ((List.range n).map fun k => match hit k with | some cs => totalW cs | none => 1).sum := by
+  unfold layerLoop
+  induction (List.range n) with
+  | nil => rfl
+  | cons k rest ih =>
+    rw [List.flatMap_cons, totalW_append, ih, List.map_cons, List.sum_cons]
+    congr 1
+    cases hit k <;> rfl
+
+theorem sum_const_one (l : List Nat) : (l.map fun _ => 1).sum = l.length := by
+  induction l with
+  | nil => rfl
+  | cons a r ih => simp [ih]; omega
+
+/-- one row takes 2, another 0, the others 1 -/
+theorem sum_two_zero (n c t : Nat) (hct : c ≠ t) :
+    ((List.range n).map fun k => if k = c then 2 else if k = t then 0 else 1).sum + (if t < n then 1 else 0)
+      = n + (if c < n then 1 else 0) := by
+  induction n with
+  | zero => simp
+  | succ m ih =>
+    rw [List.range_succ, List.map_append, List.sum_append, List.map_singleton, List.sum_singleton]
+    by_cases hc : m = c
+    · subst hc
+      have h1 : ¬ t < m ∨ t < m := by omega
+      rw [if_pos rfl]
+      simp only [Nat.lt_irrefl, if_false, Nat.lt_succ_self, if_true] at ih ⊢
+      by_cases ht : t < m
+      · have : t < m + 1 := by omega
+        simp only [ht, this, if_true] at ih ⊢; omega
+      · have : ¬ t < m + 1 := by omega
+        simp only [ht, this, if_false] at ih ⊢; omega
+    · by_cases ht : m = t
+      · subst ht
+        rw [if_neg hc, if_pos rfl]
+        by_cases hcm : c < m
+        · have : c < m + 1 := by omega
+          simp only [hcm, this, Nat.lt_irrefl, Nat.lt_succ_self, if_true, if_false] at ih ⊢; omega
+        · have : ¬ c < m + 1 := by omega
+          simp only [hcm, this, Nat.lt_irrefl, Nat.lt_succ_self, if_true, if_false] at ih ⊢; omega
+      · rw [if_neg hc, if_neg ht]
+        by_cases htm : t < m <;> by_cases hcm : c < m
+        · have a1 : t < m + 1 := by omega
+          have a2 : c < m + 1 := by omega
+          simp only [htm, hcm, a1, a2, if_true] at ih ⊢; omega
+        · have a1 : t < m + 1 := by omega
+          have a2 : ¬ c < m + 1 := by omega
+          simp only [htm, hcm, a1, a2, if_true, if_false] at ih ⊢; omega
+        · have a1 : ¬ t < m + 1 := by omega
+          have a2 : c < m + 1 := by omega
+          simp only [htm, hcm, a1, a2, if_true, if_false] at ih ⊢; omega
+        · have a1 : ¬ t < m + 1 := by omega
+          have a2 : ¬ c < m + 1 := by omega
+          simp only [htm, hcm, a1, a2, if_false] at ih ⊢; omega
+
+/-- every operation that takes a gate time issues calls of total width `n`; the others none -/
+theorem totalW_op (n : Nat) (op : Op Φ) (hwf : LWF n op) :
+    totalW (callsLayeredOp n op) = if isColOp op then n else 0 := by
+  cases op with
+  | rz q th => rfl
+  | barrier qs => rfl
+  | measure q c => rfl
+  | sx q =>
+    simp only [callsLayeredOp, isColOp, if_true, totalW_layerLoop]
+    have : (fun k => match (if k = q then some [CircCall.SX k [Par.p k, Par.T1 k, Par.T2 q]] else none : Option (List (CircCall Φ))) with
+        | some cs => totalW cs | none => 1) = fun _ => 1 := by
+      funext k; by_cases h : k = q <;> simp [h, totalW, callW]
+    rw [this, sum_const_one, List.length_range]
+  | x q =>
+    simp only [callsLayeredOp, isColOp, if_true, totalW_layerLoop]
+    have : (fun k => match (if k = q then some [CircCall.X k [Par.p k, Par.T1 k, Par.T2 q]] else none : Option (List (CircCall Φ))) with
+        | some cs => totalW cs | none => 1) = fun _ => 1 := by
+      funext k; by_cases h : k = q <;> simp [h, totalW, callW]
+    rw [this, sum_const_one, List.length_range]
+  | delay q d =>
+    simp only [callsLayeredOp, isColOp, if_true, totalW_layerLoop]
+    have : (fun k => match (if k = q then some [CircCall.relaxation k [Par.durDt d, Par.T1 k, Par.T2 k]] else none : Option (List (CircCall Φ))) with
+        | some cs => totalW cs | none => 1) = fun _ => 1 := by
+      funext k; by_cases h : k = q <;> simp [h, totalW, callW]
+    rw [this, sum_const_one, List.length_range]
+  | cx c t =>
+    obtain ⟨hc, ht, hadj⟩ := hwf
+    simp only [callsLayeredOp, isColOp, if_true, totalW_layerLoop]
+    have : (fun k => match (if k = c then some [CircCall.CNOT k t (twoQubitPars k t)] else if k = t then some [] else none :
+          Option (List (CircCall Φ))) with | some cs => totalW cs | none => 1)
+        = fun k => if k = c then 2 else if k = t then 0 else 1 := by
+      funext k
+      by_cases h1 : k = c
+      · simp [h1, totalW, callW]
+      · by_cases h2 : k = t
+        · subst h2
+          have hne : ¬ k = c := h1
+          simp [hne, totalW]
+        · simp [h1, h2, totalW]
+    rw [this]
+    have := sum_two_zero n c t (by omega)
+    simp only [hc, ht, if_true] at this
+    omega
+  | ecr c t =>
+    obtain ⟨hc, ht, hadj⟩ := hwf
+    simp only [callsLayeredOp, isColOp, if_true, totalW_layerLoop]
+    have : (fun k => match (if k = c then some [CircCall.ECR k t (twoQubitPars k t)] else if k = t then some [] else none :
+          Option (List (CircCall Φ))) with | some cs => totalW cs | none => 1)
+        = fun k => if k = c then 2 else if k = t then 0 else 1 := by
+      funext k
+      by_cases h1 : k = c
+      · simp [h1, totalW, callW]
+      · by_cases h2 : k = t
+        · subst h2
+          have hne : ¬ k = c := h1
+          simp [hne, totalW]
+        · simp [h1, h2, totalW]
+    rw [this]
+    have := sum_two_zero n c t (by omega)
+    simp only [hc, ht, if_true] at this
+    omega
+
+theorem totalW_callsLayered (n : Nat) (data : List (Op Φ)) (hwf : ∀ op ∈ data, LWF n op) :
+    totalW (callsLayered n data) = n * colCount data + n := by
+  unfold callsLayered
+  rw [totalW_append]
+  have hflip : totalW ((List.range n).map fun k => (.bitflip k [.tm k, .rout k] : CircCall Φ)) = n := by
+    unfold totalW
+    rw [List.map_map]
+    have : (callW ∘ fun k => (.bitflip k [.tm k, .rout k] : CircCall Φ)) = fun _ => 1 := by funext k; rfl
+    rw [this, sum_const_one, List.length_range]
+  rw [hflip]
+  congr 1
+  induction data with
+  | nil => simp [totalW, colCount]
+  | cons op rest ih =>
+    rw [List.flatMap_cons, totalW_append, ih (fun o ho => hwf o (by simp [ho])), totalW_op n op (hwf op (by simp))]
+    unfold colCount
+    rw [List.filter_cons]
+    by_cases h : isColOp op = true
+    · simp only [h, if_true, List.length_cons]; ring
+    · simp only [h, if_false]; simp
+
+/-- **a pipeline run fills exactly one column per gate-time operation plus the read-out column** -/
+theorem columns_used (P : PhaseOps Φ) (n d : Nat) (hn : 0 < n) (data : List (Op Φ)) (hwf : ∀ op ∈ data, LWF n op)
+    (st' : GridState Φ) (b : BinState Φ) (h0 : RelG n d (GridState.init P n d) b)
+    (hrow : RowOrderedG n 0 (callsLayered n data)) (hend : st'.s = n)
+    (hs : foldE (GridState.step P) (GridState.init P n d) (callsLayered n data) = .ok st') :
+    st'.j + 1 = colCount data + 1 := by
+  have hw := run_width P n d _ (GridState.init P n d) st' b h0 hrow hs
+  rw [totalW_callsLayered n data hwf, hend] at hw
+  simp only [GridState.init, Nat.zero_mul, Nat.zero_add] at hw
+  have : (st'.j + 1) * n = (colCount data + 1) * n := by ring_nf; ring_nf at hw; omega
+  exact Nat.eq_of_mul_eq_mul_right hn this
+
+/-- without barriers and measurements in the preprocessed list this is the depth the simulator computes,
+`len(data) − n_rz + 1` -/
+theorem colCount_depthOf (data : List (Op Φ)) (hpre : ∀ op ∈ data, (∃ q th, op = .rz q th) ∨ isColOp op = true) :
+    colCount data + 1 = depthOf data := by
+  unfold depthOf
+  congr 1
+  induction data with
+  | nil => rfl
+  | cons op rest ih =>
+    have ih' := ih (fun o ho => hpre o (by simp [ho]))
+    have hle : countRz rest ≤ rest.length := by
+      clear ih ih' hpre
+      induction rest with
+      | nil => simp [countRz]
+      | cons o r ihr => cases o <;> simp [countRz] <;> omega
+    rcases hpre op (by simp) with ⟨q, th, rfl⟩ | hcol
+    · simp only [colCount, List.filter_cons, isColOp, countRz, List.length_cons] at ih' ⊢
+      simp only [Bool.false_eq_true, if_false]
+      omega
+    · have hc : countRz (op :: rest) = countRz rest := by
+        cases op <;> simp [isColOp] at hcol <;> rfl
+      rw [hc]
+      simp only [colCount, List.filter_cons, hcol, if_true, List.length_cons] at ih' ⊢
+      omega
+
+end QG.Lemmas.GridBridge
